@@ -12,7 +12,8 @@ import (
 // ---------------------------------------------------------------- C19: collections made from one another across kinds
 
 // An Array, a List made from it, a Stack made from the List, a Queue made from the Array, a Set made from the
-// List, a second List made from the Set, a Catalog and a Map made from one another: each is an instance of its
+// List, a second List made from the Set, a Catalog and a Map made from one another, a second Catalog, the two merged
+// and an extract of the merged one: each is an instance of its
 // own.  One goroutine per instance reorders, rewrites and reads its instance; every transcript must equal the
 // transcript of the same work done alone, and the race detector must stay silent.
 type convertedCase struct {
@@ -42,6 +43,26 @@ func convertedWorkers(c convertedCase) []worker {
 	}
 	map_ := col.Map[int, int](n).MakeFromSequence(catalog)
 	catalog2 := col.Catalog[int, int](n).MakeFromSequence(map_)
+	// a second catalog with keys of its own, the two merged, and an extract of the merged one
+	other := col.Catalog[int, int](n).Make()
+	for i, v := range vals {
+		other.SetValue(500+i, v)
+	}
+	other.SetValue(777, 7)
+	merged := col.Catalog[int, int](n).Merge(catalog, other)
+	extract := col.Catalog[int, int](n).Extract(merged, col.List[int](n).MakeFromArray([]int{777, 0}))
+	rewrite := func(x col.CatalogLike[int, int], step int) func() string {
+		return func() string {
+			out := ""
+			for r := 0; r < c.Rounds; r++ {
+				for _, k := range x.GetKeys().AsArray() {
+					x.SetValue(k, x.GetValue(k)+step)
+				}
+				out = fmt.Sprint(x)
+			}
+			return out
+		}
+	}
 	inPlace := func(x interface {
 		col.Sequential[int]
 		col.Sortable[int]
@@ -117,6 +138,9 @@ func convertedWorkers(c convertedCase) []worker {
 			}
 			return out
 		}},
+		{"a second Catalog, merged with the first", rewrite(other, 1)},
+		{"the merged Catalog", rewrite(merged, 100)},
+		{"the Catalog extracted from the merged one", rewrite(extract, 10000)},
 		{"the Catalog made from the Map", func() string {
 			out := ""
 			for r := 0; r < c.Rounds; r++ {
